@@ -85,6 +85,11 @@ const (
 	Partial Code = 130
 )
 
+// FreeCell as the second operand of MakeCell means that the first operand is
+// an index into the free variables of the running function, whose existing
+// cell is passed on, rather than the index of a local variable of a frame.
+const FreeCell uint16 = 0xFFFF
+
 // BinaryOpType describes a type of binary operation, as in an operation that
 // takes two operands. For example, addition, subtraction, multiplication, etc.
 type BinaryOpType uint16
